@@ -140,6 +140,7 @@ type knownEntry struct {
 	ID       string
 	Label    string
 	Desc     string
+	Always   bool // event-only findings (no harness predicate): cover the labelled site unconditionally
 }
 
 func parseKnownFile() []knownEntry {
@@ -197,6 +198,8 @@ func parseKnownFile() []knownEntry {
 				e.ID = val
 			case "label":
 				e.Label = val
+			case "always":
+				e.Always = val == "true"
 			}
 		}
 		if e.ID != "" && e.Property != "" && e.Label != "" {
@@ -218,6 +221,9 @@ func readKnown(prop string) (map[string]map[string]bool, map[string]knownEntry) 
 			m[e.ID] = map[string]bool{}
 		}
 		m[e.ID][e.Label] = true
+		if e.Always {
+			m[e.ID]["\x00always"] = true
+		}
 		if _, ok := byID[e.ID]; !ok {
 			byID[e.ID] = e
 		}
@@ -305,6 +311,13 @@ func cmdCheck(args []string) int {
 
 	jobs := prop.Jobs(tier)
 	for _, j := range jobs {
+		if j.Budget == 0 {
+			if tier == "thorough" {
+				j.Budget = 60 * time.Minute
+			} else {
+				j.Budget = 8 * time.Minute
+			}
+		}
 		if j.CrossCheckEvery == 0 {
 			if tier == "thorough" {
 				j.CrossCheckEvery = 1
@@ -909,6 +922,6 @@ func cmdNative(args []string) {
 	runner, _ := sym.NewNativeRunner(prog, harnessDir)
 	defer runner.Close()
 	runner.Verbose = true
-	outs, err := runner.Run(h[:strings.LastIndex(h, ".")], []sym.NativeCase{{Harness: h, Args: hargs, Values: vals}}, false, 60*time.Second)
+	outs, err := runner.Run(h[:strings.LastIndex(h, ".")], []sym.NativeCase{{Harness: h, Args: hargs, Values: vals}}, os.Getenv("VERIF_NATIVE_RACE") != "", 60*time.Second)
 	fmt.Println(outs, err)
 }
